@@ -100,6 +100,10 @@ CASES = [
     ("mask_count_assign", "def f(a, b):\n    c = a.clone()\n    m = c[:, 0] > 0\n    k = int(m.sum())\n    c[m, :] = b[:k, :]\n    return c", (5, 2), (5, 2)),
     ("alias_flatten", "def f(a, b):\n    c = a.clone()\n    c.flatten()[2] = -4.0\n    return c", (2, 2), (1,)),
     ("linalg_inv", "def f(a, b):\n    m = torch.tensor([[2.0, 1.0], [1.0, 1.0]]) + torch.eye(2) * a[0] * a[0]\n    return torch.matmul(torch.linalg.inv(m), b)", (1,), (2, 1)),
+    ("new_zeros_select", "def f(a, b):\n    z = a.new_zeros((a.shape[0], 3))\n    z[:, 0] = a.select(1, 1)\n    z[:, 2] = torch.select(a, 1, 0) + a.new_ones(a.shape[0]) + a.new_full((a.shape[0],), 2.5)\n    return z + b.new_zeros(3)", (4, 2), (3,)),
+    ("nonzero_tuple", "def f(a, b):\n    m = a[:, 0] > 0\n    i = m.nonzero(as_tuple=True)[0]\n    j = torch.where(~m)[0]\n    c = b.clone()\n    c[i] = c[i] * 2\n    c[j] = 0\n    return c", (5, 2), (5, 2)),
+    ("vstack_hstack", "def f(a, b):\n    return torch.hstack((torch.vstack((a, b)), torch.vstack((b, a))))", (3, 2), (2, 2)),
+    ("method_forms", "def f(a, b):\n    return a.flip(dims=(1,)) + a.flip([0]).square() + a.sign().relu() + a.ceil().clamp(min=-1.0, max=2.0)", (3, 2), (1,)),
     ("flip", "def f(a, b):\n    return torch.flip(a, [0])", (4, 2), (1,)),
     ("sign_relu", "def f(a, b):\n    return torch.sign(a) + torch.relu(a)", (6,), (1,)),
     ("ceil_int", "def f(a, b):\n    n = int(torch.ceil(a[0] / 3))\n    return torch.ones(n + 1)", (1,), (1,)),
